@@ -36,19 +36,19 @@ def generate_histories(ctx, n, depth):
     hists = [seqify(h) for h in tlc.parse_prints(out, "HIST")]
     uniq = {}
     for h in hists:
-        calls = [e for e in h if e["op"] not in ("create", "fill")]
+        calls = [e for e in h if e["op"] not in ("create", "fill", "rejected")]
         if len(calls) >= 4:
             uniq.setdefault(digest(h), h)
     hs = list(uniq.values())
     # prefer histories with an A-B-A pattern of arguments on one function object
     def aba(h):
-        calls = [(e["f"], e["p"], e["init"], e["seed"]) for e in h if e["op"] not in ("create", "fill")]
+        calls = [(e["f"], e["p"], e["init"], e["seed"]) for e in h if e["op"] not in ("create", "fill", "rejected")]
         return any(calls[i] == calls[k] and calls[j] != calls[i] and calls[j][0] == calls[i][0]
                    for i in range(len(calls)) for j in range(i + 1, len(calls)) for k in range(j + 1, len(calls)))
     # ... and histories in which a held params object (the filled template) is passed to a function object that is later
     # called with another parameter set
     def held_then_other(h):
-        calls = [e for e in h if e["op"] not in ("create", "fill")]
+        calls = [e for e in h if e["op"] not in ("create", "fill", "rejected")]
         return any(a["via"] == "held" and b["f"] == a["f"] and b["p"] != a["p"] for i, a in enumerate(calls) for b in calls[i + 1:])
     hs.sort(key=lambda h: (not aba(h), digest(h)))
     held = [h for h in hs if held_then_other(h)]
@@ -134,7 +134,7 @@ def run(ctx: Ctx) -> Result:
         elif v["v"][0] == "FAIL":
             add_violation(ctx, res, "result-vs-own-args:" + v["v"][1], {"kind": "pipeline-case", "property": ctx.prop, "case": c, "verdict": v},
                           f"result of a call does not follow from its own arguments: {v['v'][2][:300]}")
-    n_calls = sum(1 for s in specs for e in s["hist"] if e["op"] not in ("create", "fill"))
+    n_calls = sum(1 for s in specs for e in s["hist"] if e["op"] not in ("create", "fill", "rejected"))
     res.merge_cov(evaluations=len(specs), traces_validated_against_impl=n_ok, calls=n_calls, distinct_nontrivial=n_aba, histories_with_held_params_then_other_call=n_held,
                   value_level_cases=len(pcases), value_level_ok=p_ok, other_process_runs=sum(len(t["extern"]) for t in traces),
                   states=st["distinct"] + pst["distinct"] + mc["distinct"], transitions=st["generated"] + pst["generated"] + mc["generated"],
